@@ -1,5 +1,6 @@
 import M3d.Lemmas.MeshDiag
 import M3d.Lemmas.MeshDiagHier
+import M3d.Lemmas.MeshDiagOrient
 /-!
 # C11 — mesh diagnostics, repair and nesting agree with their definitions
 
@@ -64,6 +65,56 @@ example : needsRepair [(0,1,2),(0,2,3),(0,3,1),(1,3,2)] = false ∧
     needsRepair [(0,1,2),(0,2,3),(0,3,1)] = true ∧
     inconsistentEdges [(0,2,1),(0,2,3),(0,3,1),(1,3,2)] = [(0,2),(2,1),(1,0)] := by decide
 
+/-! ## 2-D twins -/
+
+/-- **`model2d.Mesh.Manifold` is exact**: true iff every vertex lies on exactly two segments. -/
+theorem manifold2_iff (ss : List Seg) :
+    manifold2 ss = true ↔ ∀ v ∈ segVertsAll ss, (segsAt v ss).length = 2 := by
+  simp [manifold2, segVerts, List.mem_eraseDups]
+
+/-- **`model2d.Mesh.InconsistentVertices` is exact** (no degenerate segment): it lists, each once,
+exactly the vertices that start more than one segment or end more than one segment. -/
+theorem inconsistent_vertices2_eq (ss : List Seg) (hl : NoLoopSeg ss) :
+    (inconsistentVertices2 ss).Nodup ∧
+    ∀ v, v ∈ inconsistentVertices2 ss ↔
+      v ∈ segVertsAll ss ∧ ((starts ss).count v > 1 ∨ (ends ss).count v > 1) := by
+  refine ⟨(nodup_eraseDups _).filter _, fun v => ?_⟩
+  simp only [inconsistentVertices2, segVerts, List.mem_filter, List.mem_eraseDups, numFirst_eq,
+    numSecond_eq v ss hl, Bool.or_eq_true, decide_eq_true_eq]
+
+/-- The two 2-D diagnostics together are the closed-oriented-curves predicate of the shared
+surface library (`M3d.Surface.InOutOne`): without degenerate segments, every vertex has exactly
+one outgoing and one incoming segment iff `Manifold()` holds and `InconsistentVertices()` is empty. -/
+theorem in_out_one_iff_clean2 (ss : List Seg) (hl : NoLoopSeg ss) :
+    InOutOne ss ↔ manifold2 ss = true ∧ inconsistentVertices2 ss = [] := by
+  rw [manifold2_iff]
+  have hiv : inconsistentVertices2 ss = [] ↔
+      ∀ v ∈ segVertsAll ss, (starts ss).count v ≤ 1 ∧ (ends ss).count v ≤ 1 := by
+    rw [List.eq_nil_iff_forall_not_mem]
+    constructor
+    · intro h v hv
+      have := h v
+      rw [(inconsistent_vertices2_eq ss hl).2 v] at this
+      constructor <;> (apply Nat.le_of_not_lt; intro hc; exact this ⟨hv, by omega⟩)
+    · intro h v hv
+      obtain ⟨hv', hc⟩ := ((inconsistent_vertices2_eq ss hl).2 v).mp hv
+      have := h v hv'
+      omega
+  rw [hiv]
+  have hlen : ∀ v, (segsAt v ss).length = (starts ss).count v + (ends ss).count v := by
+    intro v; rw [segsAt_length, numFirst_eq, numSecond_eq v ss hl]
+  constructor
+  · intro h
+    exact ⟨fun v hv => by rw [hlen]; have := h v hv; omega, fun v hv => by have := h v hv; omega⟩
+  · rintro ⟨h1, h2⟩ v hv
+    have a := h1 v hv
+    rw [hlen] at a
+    have b := h2 v hv
+    omega
+
+example : manifold2 [(0,1),(1,2),(2,0)] = true ∧ inconsistentVertices2 [(0,1),(2,1),(2,0)] = [1,2] ∧
+    manifold2 [(0,1),(1,2)] = false := by decide
+
 /-! ## fan connectivity -/
 
 /-- **`Mesh.SingularVertices` is exact** (meshes without degenerate faces, every iteration order):
@@ -93,6 +144,66 @@ theorem clusters_partition (ts : List Tri) (p : Nat) :
     (∀ F ∈ clusters ts p, ∃ x ∈ F, ∀ y ∈ F, Reach (adjAt p) (facesAt p (enum ts)) x y) ∧
     (clusters ts p).Pairwise (fun F G => ∀ a ∈ F, ∀ b ∈ G, adjAt p a b = false) :=
   families_spec (adjAt p) _ _ (Nat.le_refl _) ((enum_nodup ts).filter _)
+
+/-! ## orientation -/
+
+/-- **`maybeFaceOrientations` returns consistent flips** (meshes without degenerate faces, every
+iteration order of the faces and of `Neighbors`): whenever the search succeeds, flipping the
+flagged faces of a group makes no directed edge of the group occur twice — every edge shared by
+two faces of the group is traversed in opposite directions.  (So the search can only succeed on
+components that admit a consistent orientation; it returns `nil` otherwise.)
+
+Partial: that the groups partition the faces into the components of `Neighbors`, and the converse
+(`nil` only for non-orientable components), are not proved here; both are checked on every
+correspondence case (`rnm3`: groups, flip sets and counts of the real code against this model,
+Möbius bands / Klein bottles / fins must be rejected, re-oriented closed manifolds accepted and
+made `EdgeBalanced`). -/
+theorem orientations_consistent_partial (ts : List Tri) (hd : NoDegenerate ts)
+    (gs : List (List (Face × Bool))) (h : faceOrientations ts = .groups gs) :
+    ∀ g ∈ gs, (dirEdges (applyFlags g)).Nodup := by
+  unfold faceOrientations at h
+  exact orientAll_spec (enum ts) (fun f hf => hd _ (mem_enum_snd hf)) _ _ _ _ (fun _ h => h) h
+    (by intro g hg; cases hg)
+
+/-- **`RepairNormalsMajority` flips the minority side of every group**: the number of faces it
+flips in a group is `min(k, n − k)` where `k` of the group's `n` faces carry the flag, it uses
+either the flags found by the search or their complement, and complementing all flags of a group
+reverses every edge (so the group stays consistently oriented whichever side is flipped). -/
+theorem majority_minimal_flips (g : List (Face × Bool)) :
+    (majorityFlags g).countP (·.2) = min (g.countP (·.2)) (g.length - g.countP (·.2)) ∧
+    (majorityFlags g = g ∨ majorityFlags g = g.map fun p => (p.1, !p.2)) ∧
+    (dirEdges (applyFlags (g.map fun p => (p.1, !p.2)))).Perm ((dirEdges (applyFlags g)).map swap) :=
+  ⟨majorityFlags_count g, majorityFlags_cases g, dirEdges_applyFlags_compl g⟩
+
+/-- Hence the output of `RepairNormalsMajority` is consistently oriented group by group. -/
+theorem repair_normals_majority_consistent (ts : List Tri) (hd : NoDegenerate ts)
+    (fl : List (List (Face × Bool))) (h : repairNormalsMajority ts = some fl) :
+    ∀ g ∈ fl, (dirEdges (applyFlags g)).Nodup := by
+  unfold repairNormalsMajority at h
+  cases hf : faceOrientations ts with
+  | groups gs =>
+    rw [hf] at h
+    simp only [Option.some.injEq] at h
+    subst h
+    intro g hg
+    obtain ⟨g0, hg0, rfl⟩ := List.mem_map.mp hg
+    have h0 := orientations_consistent_partial ts hd gs hf g0 hg0
+    rcases majorityFlags_cases g0 with h1 | h1
+    · rw [h1]; exact h0
+    · rw [h1]
+      refine (dirEdges_applyFlags_compl g0).nodup_iff.mpr ?_
+      exact List.Pairwise.map swap (fun a b hne hab => hne (by
+        have := congrArg swap hab; simp only [swap, Prod.mk.injEq] at this; exact Prod.ext this.1 this.2)) h0
+  | notOrientable => rw [hf] at h; cases h
+  | impossible => rw [hf] at h; cases h
+
+/-- Non-vacuity: a tetrahedron with one face re-oriented is accepted, that face is the minority
+and is the one flipped; a Möbius band is rejected. -/
+example :
+    (repairNormalsMajority [(0,2,1),(0,2,3),(0,3,1),(1,3,2)]).map (fun fl => fl.map fun g => g.map fun p => (p.1.1, p.2))
+      = some [[(0,true),(1,false),(2,false),(3,false)]] ∧
+    repairNormalsMajority [(0,1,3),(1,4,3),(1,2,4),(2,5,4),(2,3,5),(3,0,5)] = none := by
+  decide
 
 /-! ## hierarchy -/
 
